@@ -362,6 +362,15 @@ impl Report {
         }
         let t0 = Instant::now();
         let mut pts = c.points(self.tier);
+        if let Ok(filt) = std::env::var("VERIF_POINT_FILTER") {
+            // debugging aid: keep only points whose JSON contains one of the comma-separated substrings
+            let subs: Vec<&str> = filt.split(',').collect();
+            pts.retain(|p| {
+                let j = serde_json::to_string(p).unwrap_or_default();
+                subs.iter().any(|s| j.contains(s))
+            });
+            self.machinery.push(format!("VERIF_POINT_FILTER={} is a debugging aid: this run is not a verdict", filt));
+        }
         let lattice_n = pts.len();
         // committed regression points (replay files of defects found earlier) are re-run on every invocation
         let regdir = format!("{}/regressions", self.root);
